@@ -153,7 +153,15 @@ class Core : public ResultCoreT<Type, Ret, E>, public FuncCore<Func> {
       return Done<SymmetricTransfer, true>(core.template MoveOrConst<!AsyncShared>());
     };
     if constexpr (IsRun(Type)) {
-      return async_done();
+      if constexpr (kAsync != AsyncType::None) {
+        if (this->_self.caller != nullptr) {
+          return async_done();
+        }
+      }
+      // Not waiting for an inner result: this is the head of a lazy chain (Schedule) being started by the step or
+      // coroutine that received the Task
+      this->_executor->Submit(*this);
+      return Noop<SymmetricTransfer>();
     } else {
       if constexpr (kAsync != AsyncType::None) {
         if (this->_self.unwrapping != 0) {
